@@ -13,6 +13,7 @@ import JsonV.Lemmas.WireNumberScan
 import JsonV.Lemmas.WireString
 import JsonV.Lemmas.WireValue
 import JsonV.Lemmas.GlueResume
+import JsonV.Lemmas.GlueResumeStr
 import JsonV.Gen.Constants
 import JsonV.Gen.Tables
 
@@ -292,14 +293,70 @@ theorem number_chunk_indep_grammar (c : Bytes) (cs : List Bytes) (n : Nat) :
   cases e <;> simp [eR]
   all_goals (split <;> simp_all)
 
-end Glue
+theorem join_empty_left (f : ValueFlags) : ValueFlags.join {} f = f := by
+  cases f; simp [ValueFlags.join]
 
-/-- not yet glued: the string scanner copies (`Resume.consumeStringResumable` vs `consumeStringResumable`). -/
-def glue_string_full : Prop :=
-  ∀ (b : Bytes) (off : Nat) (v : Bool),
-    let r := Model.Resume.consumeStringResumable .none b off v
-    let w := consumeStringResumable b off v
-    r.1 = w.1 ∧ r.2.1.nonVerbatim = w.2.1.nonVerbatim ∧ r.2.1.nonCanonical = w.2.1.nonCanonical ∧
-      JsonV.Lemmas.GlueResume.eR r.2.2 = w.2.2
+/-- `Resume.consumeStringResumable` is `Wire.consumeStringResumable` (offset, flags joined onto the incoming
+flags, error class), for every buffer, resume offset and UTF-8 mode. -/
+theorem glue_string (f : Model.Resume.VFlags) (b : Bytes) (off : Nat) (v : Bool) :
+    (Model.Resume.consumeStringResumable f b off v).1 = (consumeStringResumable b off v).1 ∧
+    fR (Model.Resume.consumeStringResumable f b off v).2.1 = (fR f).join (consumeStringResumable b off v).2.1 ∧
+    eR (Model.Resume.consumeStringResumable f b off v).2.2 = (consumeStringResumable b off v).2.2 :=
+  string_resumable_eq f b off v
+
+/-- C05's `str_resume`, transferred to the scanner of this slice: if scanning `b` ends in
+io.ErrUnexpectedEOF with resume offset `n` and flags `f`, then for EVERY extension `e` resuming at `n`
+answers what a fresh scan of `b ++ e` answers (offset, error class, and flags once `f` is joined in). -/
+theorem string_resume_transfer (b e : Bytes) (v : Bool) (n : Nat) (f : ValueFlags)
+    (h : consumeStringResumable b 0 v = (n, f, .eof)) :
+    (consumeStringResumable (b ++ e) n v).1 = (consumeStringResumable (b ++ e) 0 v).1 ∧
+    f.join (consumeStringResumable (b ++ e) n v).2.1 = (consumeStringResumable (b ++ e) 0 v).2.1 ∧
+    (consumeStringResumable (b ++ e) n v).2.2 = (consumeStringResumable (b ++ e) 0 v).2.2 := by
+  obtain ⟨g1, g2, g3⟩ := glue_string .none b 0 v
+  rw [h] at g1 g2 g3
+  rcases hr : Model.Resume.consumeStringResumable .none b 0 v with ⟨n', f', e'⟩
+  rw [hr] at g1 g2 g3
+  simp only at g1 g2 g3
+  have he : e' = .eof := eR_inj e' .eof (by rw [g3]; rfl)
+  subst he
+  subst g1
+  have hres := JsonV.Model.Resume.str_resume_eq .none b e v n' f' hr
+  obtain ⟨a1, a2, a3⟩ := glue_string f' (b ++ e) n' v
+  obtain ⟨b1, b2, b3⟩ := glue_string .none (b ++ e) 0 v
+  rw [hres] at a1 a2 a3
+  have hf : fR f' = f := by
+    rw [g2]; exact join_empty_left f
+  have hnone : fR Model.Resume.VFlags.none = {} := rfl
+  rw [hnone, join_empty_left] at b2
+  rw [hf] at a2
+  exact ⟨by rw [← a1, b1], by rw [← a2, b2], by rw [← a3, b3]⟩
+
+/-- Chunk independence meets the grammar, for strings: however the input is cut into chunks, the decoder's
+refill loop for strings (`decoderState.consumeString`, modelled by C05) answers `(n, _, nil)` exactly when the
+first `n` bytes of the concatenated input are a string of the grammar (in the selected UTF-8 mode). -/
+theorem string_chunk_indep_grammar (c : Bytes) (cs : List Bytes) (v : Bool) (n : Nat) :
+    (∃ f, Model.Resume.consumeStringChunks .none c 0 v cs = (n, f, .ok)) ↔
+      n ≤ (c ++ cs.flatten).length ∧ JString v ((c ++ cs.flatten).take n) := by
+  rw [← string_iff]
+  simp only [JsonV.Model.Resume.str_chunk_indep]
+  generalize c ++ cs.flatten = b
+  obtain ⟨g1, g2, g3⟩ := glue_string .none b 0 v
+  have hnone : fR Model.Resume.VFlags.none = {} := rfl
+  rw [hnone, join_empty_left] at g2
+  constructor
+  · rintro ⟨f, hf⟩
+    rw [hf] at g1 g2 g3
+    refine ⟨fR f, ?_⟩
+    exact Prod.ext g1.symm (Prod.ext g2.symm g3.symm)
+  · rintro ⟨f, hf⟩
+    unfold consumeString at hf
+    rw [hf] at g1 g2 g3
+    rcases hr : Model.Resume.consumeStringResumable .none b 0 v with ⟨n', f', e'⟩
+    rw [hr] at g1 g2 g3
+    simp only at g1 g2 g3
+    have he : e' = .ok := eR_inj e' .ok (by rw [g3]; rfl)
+    exact ⟨f', by rw [g1, he]⟩
+
+end Glue
 
 end JsonV.Props.C01
